@@ -93,10 +93,15 @@ def repetition_caps(prog, rep, RID):
             # (which case applies to which edge is decided by the premises rule: own flow only for non-ignored edges carrying the attribute)
             from rules.common import expr_cases
             from rules.bounds import _resolve
-            e_ = _resolve(g, v)
+            try:
+                e_ = _ast.parse(txt, mode="eval").body
+            except SyntaxError:
+                e_ = _resolve(g, v)
+            from rules.bounds import expand_get
+            e_ = expand_get(e_)
             if isinstance(e_, _ast.DictComp) and len(e_.generators) == 1 and "self.G.edges" in norm(e_.generators[0].iter):
                 vals = [norm(x) for _, x in expr_cases(e_.value)]
-                ok_vals = [t for t in vals if t == "self.w_max" or re.fullmatch(r"[\w.\[\], ]+\[self\.flow_attr\]", t)]
+                ok_vals = [t for t in vals if t == "self.w_max" or re.fullmatch(r"[\w.\[\], ()]+\[self\.flow_attr\]", t)]
                 if len(ok_vals) == len(vals) and any(t != "self.w_max" for t in vals):
                     equivalent_form = True
                 elif any(isinstance(x, _ast.Constant) for _, x in expr_cases(e_.value)):
